@@ -1503,6 +1503,8 @@ def render_harness():
     from .absint import tags_of
 
     class H(WriterOracles):
+        interpret_fmt = True
+
         def __init__(self):
             WriterOracles.__init__(self)
             self.bad = []
@@ -1553,6 +1555,8 @@ def render_harness():
                             self.out.append(" }")
                         return Adt("std::result::Result", 0, [Tup([])])
             r = WriterOracles.on_call(self, it, fn, args, dest_ty, term, caller)
+            if r is NotImplemented and name == "fmt" and it.find_body(fn) is not None:
+                return r        # a formatting impl of the crate itself: interpreted
             if r is NotImplemented and ("fmt::" in path or "fmt::" in (fn.get("trait") or "")) and not path.startswith("dna_string::"):
                 self.bad.append("formatting call %s is not captured" % path)
             return r
@@ -1734,6 +1738,39 @@ def slice_getkmer_lemmas(F, rep, rule="C15.1", quick=True):
                                     "get_kmer::<%s>(%d) on the view (start %d, length %d, is_rc %s) = the %d bases of the view from position %d"
                                     % (kty, pos, st, ln, rc, K, pos))
                     guarded(rep, rule, "view-getkmer/" + vk, "get_kmer", f)
+        # the terminal accessors on views: first_kmer = the K bases from 0, last_kmer = the last K bases, term_kmer(Left/Right) = first / last,
+        # both_term_kmer = (first, last) — on both strands (whichever way the accessor is implemented for views)
+        from .dt import dir_v, LEFT, RIGHT
+        for st in ((1, 33) if quick else (0, 1, 17, 31, 33)):
+            for rc in (False, True):
+                ln = K + 5
+                for meth, extra, picks in (("first_kmer", [], [0]), ("last_kmer", [], [ln - K]), ("term_kmer", [dir_v(LEFT)], [0]),
+                                           ("term_kmer", [dir_v(RIGHT)], [ln - K]), ("both_term_kmer", [], [0, ln - K])):
+                    akey = "<%s<'_> as Vmer>::%s::<%s>" % (SLICE_T, meth, kty)
+                    if akey not in F.insts:
+                        continue
+                    vk = "%s/%s%s/start=%d/rc=%d" % (kty, meth, ("(%s)" % ("Left" if picks == [0] else "Right")) if extra else "", st, int(rc))
+
+                    def g(st=st, rc=rc, ln=ln, kt=kt, K=K, akey=akey, vk=vk, meth=meth, extra=extra, picks=picks):
+                        vals = {"dna_string": Ref(Cell(dt.sym("s", nback), "back")), "start": usize(st), "length": usize(ln),
+                                "is_rc": Int(8, False, val=int(rc), kind="bool")}
+                        view = Adt(SLICE_T, 0, [vals[k] for k in order])
+                        r, _ = run_inst(F, akey, [Ref(Cell(view, "self"))] + list(extra))
+                        outs = list(r.fields) if isinstance(r, Tup) else [r]
+                        if len(outs) != len(picks):
+                            rep.inconclusive(rule, "view-getkmer/" + vk, "%s returns %r" % (meth, r))
+                            return
+                        for o, pos in zip(outs, picks):
+                            spec = [ZERO] * kt.W
+                            for j in range(K):
+                                hi, lo = kt.lane_bits(j)
+                                blo, bhi = view_base_bits("s", st, ln, rc, pos + j)
+                                spec[hi], spec[lo] = bhi, blo
+                            if not expect_bits(rep, rule, "view-getkmer/" + vk, kt.storage_of(o), spec,
+                                               "%s%s on the view (start %d, length %d, is_rc %s) = the %d bases of the view from position %d" % (
+                                                   meth, "(%s)" % ("Left" if pos == 0 else "Right") if extra else "", st, ln, rc, K, pos)):
+                                return
+                    guarded(rep, rule, "view-getkmer/" + vk, meth, g)
 
 
 def slice_exact_lemmas(F, rep, rule="C15.1", nback=70, quick=True, only=None):
@@ -2493,3 +2530,233 @@ def lmer_eq_table(F, rep, rule="C17.eq", only_if_by_hand=True):
                             return
                     rep.holds(rule, key, "%s agrees with the strings (both operand orders)" % meth, nontrivial=False)
                 guarded(rep, rule, key, meth, f)
+
+
+
+def container_iter_lemmas(F, rep, rule="L-base-iter", conts=("slice", "string"), quick=True):
+    """base iteration `for b in &x` (IntoIterator for &C, and the Iterator impl of whatever iterator type it returns): yields exactly the
+    bases 0..len of the string / view in order, then None — exact, on symbolic backing strings, for views at aligned and unaligned offsets,
+    across storage words, on both strands, and for empty ones."""
+    try:
+        dt = DnaT(F)
+    except Unsupported as e:
+        rep.inconclusive(rule, "DnaString", "role discovery: %s" % e)
+        return
+    roots = F.d.get("roots", [])
+    flds = [f["name"] for f in F.adts.get(SLICE_T, {}).get("variants", [{}])[0].get("fields", [])] if hasattr(F, "adts") else []
+    order = flds if sorted(flds) == sorted(["dna_string", "start", "length", "is_rc"]) else ["dna_string", "start", "length", "is_rc"]
+    for cname, cty in (("slice", SLICE_T + "<'_>"), ("string", DS)):
+        if cname not in conts:
+            continue
+        into = [r for r in roots if r.get("trait") == "IntoIterator" and r.get("self") == "&" + cty]
+        nexts = [r for r in roots if r.get("trait") == "Iterator" and r.get("of") == cty and r.get("method") == "next"]
+        if not into:
+            continue        # the container is not iterable by reference: nothing to decide
+        if len(nexts) != 1 or into[0]["key"] not in F.insts or nexts[0]["key"] not in F.insts:
+            rep.inconclusive(rule, "%s/into_iter" % cname, "the iterator type returned by <&%s as IntoIterator>::into_iter is not a crate type with its own `next` "
+                             "in the driver's facts" % cty)
+            continue
+        ikey, nkey = into[0]["key"], nexts[0]["key"]
+        if cname == "slice":
+            nback = 70
+            starts = (0, 1, 31, 32, 33) if quick else (0, 1, 2, 31, 32, 33, 63, 64)
+            lens = (0, 1, 3, 31, 32, 33) if quick else (0, 1, 2, 3, 31, 32, 33, 34)
+            cases = [(nback, st, ln, rc) for st in starts for ln in lens for rc in (False, True) if st + ln <= nback]
+            cases += [(64, 32, 32, rc) for rc in (False, True)] + [(64, 0, 64, rc) for rc in (False, True)] + [(0, 0, 0, False), (0, 0, 0, True)]
+        else:
+            cases = [(n, 0, n, False) for n in (0, 1, 31, 32, 33, 64, 65)]
+        for nb, st, ln, rc in cases:
+            key = "%s/iter/backing=%d/start=%d/len=%d/rc=%d" % (cname, nb, st, ln, int(rc))
+
+            def f(nb=nb, st=st, ln=ln, rc=rc, key=key, cname=cname, ikey=ikey, nkey=nkey):
+                back = Cell(dt.sym("s", nb), "back")
+                if cname == "slice":
+                    vals = {"dna_string": Ref(back), "start": usize(st), "length": usize(ln), "is_rc": Int(8, False, val=int(rc), kind="bool")}
+                    me = Ref(Cell(Adt(SLICE_T, 0, [vals[k] for k in order]), "self"))
+                else:
+                    me = Ref(back)
+                itv, _ = run_inst(F, ikey, [me])
+                cell = Cell(itv, "iter")
+                for i in range(ln + 2):
+                    r, _ = run_inst(F, nkey, [Ref(cell)])
+                    rep.evaluations += 1
+                    if not (isinstance(r, Adt) and r.variant in (0, 1)):
+                        rep.inconclusive(rule, key, "next() number %d returns %r" % (i, r))
+                        return
+                    if i >= ln:
+                        if r.variant != 0:
+                            rep.violated(rule, key, "iterating a %s of %d bases (start %d, is_rc %s): next() number %d yields another base instead of ending" % (
+                                "view" if cname == "slice" else "string", ln, st, rc, i), witness={"kind": "iter", "step": i})
+                            return
+                        continue
+                    if r.variant != 1:
+                        rep.violated(rule, key, "iterating a %s of %d bases (start %d, is_rc %s): the iteration ends after %d bases" % (
+                            "view" if cname == "slice" else "string", ln, st, rc, i), witness={"kind": "iter", "step": i})
+                        return
+                    e = r.fields[0]
+                    lo, hi = view_base_bits("s", st, ln, rc, i)
+                    if not isinstance(e, Int) or any(b is TOP for b in e.getbits()):
+                        rep.inconclusive(rule, key, "item %d is %r" % (i, e))
+                        return
+                    if list(e.getbits()) != [lo, hi] + [ZERO] * (len(e.getbits()) - 2):
+                        rep.violated(rule, key, "iterating a %s of %d bases (start %d, is_rc %s): item %d is %s|%s, specified: base %d of the %s = %s|%s" % (
+                            "view" if cname == "slice" else "string", ln, st, rc, i, bv.t_str(e.getbits()[1]), bv.t_str(e.getbits()[0]), i,
+                            "view" if cname == "slice" else "string", bv.t_str(hi), bv.t_str(lo)), witness={"kind": "iter", "step": i})
+                        return
+                rep.holds(rule, key, "`for b in &x` yields the %d bases in order and then ends" % ln, nontrivial=False)
+            guarded(rep, rule, key, "iter", f)
+
+
+
+def node_kmer_iter_e2e(F, rep, rule="L-node-iter", quick=True):
+    """the k-mer iterator of a graph node, end to end and representation-independent: NodeKmer::into_iter on a node that is a view into a
+    symbolic packed store, then scripted interleavings of next() and nth(n) — n below / at / above the short-skip threshold, inside and
+    beyond the remaining count, and at the integer-width landmarks (2^8, 2^16, 2^32 (+1), usize::MAX) — each followed by draining with
+    next().  Every call must return the k-mer the specification's cursor points at (or None from the moment a step or skip reaches past
+    the last k-mer, for ever after); a fresh iterator reports exactly the number of k-mers."""
+    try:
+        dt = DnaT(F)
+    except Unsupported as e:
+        rep.inconclusive(rule, "DnaString", "role discovery: %s" % e)
+        return
+    roots = F.d.get("roots", [])
+    flds = [f["name"] for f in F.adts.get(SLICE_T, {}).get("variants", [{}])[0].get("fields", [])]
+    order = flds if sorted(flds) == sorted(["dna_string", "start", "length", "is_rc"]) else ["dna_string", "start", "length", "is_rc"]
+    nk = F.adts.get("graph::NodeKmer")
+    if not nk:
+        rep.violated(rule, "NodeKmer", "anchor-missing: graph::NodeKmer", witness={"kind": "anchor-missing"})
+        return
+    nkf = nk["variants"][0]["fields"]
+    handles = [r for r in roots if r.get("trait") == "IntoIterator" and r.get("self", "").startswith("graph::NodeKmer<")]
+    if not handles:
+        rep.inconclusive(rule, "NodeKmer/into_iter", "no monomorphic instance of NodeKmer's IntoIterator in the driver's facts")
+        return
+    BIG = [1 << 8, 1 << 16, 1 << 32, (1 << 32) + 1, (1 << 64) - 1]
+    for hi_, h in enumerate(handles):
+        selfty = h["self"]
+        m = re.match(r"^graph::NodeKmer<'_, (.+), \(\)>$", selfty)
+        if not m:
+            continue
+        kty = m.group(1)
+        try:
+            kt = KType(F, kty)
+            kt.K = kmer_k(F, kt)
+        except Exception as e:
+            rep.inconclusive(rule, "%s/K" % kty, "cannot evaluate K: %s" % e)
+            continue
+        K = kt.K
+        meths = {r["method"]: r["key"] for r in roots if r.get("trait") == "Iterator" and r.get("of") == selfty}
+        if "next" not in meths or h["key"] not in F.insts or any(k_ not in F.insts for k_ in meths.values()):
+            rep.inconclusive(rule, "%s/iterator" % kty, "the iterator returned by NodeKmer::into_iter has no `next` instance in the driver's facts")
+            continue
+        count = 8
+        ln = K + count - 1
+        small = [0, 1, 3, 4, 5, 6, 7, 8, 9]
+        ops1 = [("next", None)] + [("nth", n) for n in small + BIG]
+        first = (kty == sorted(re.match(r"^graph::NodeKmer<'_, (.+), \(\)>$", x["self"]).group(1) for x in handles)[0]) or not quick
+        scripts = []
+        for a in ops1:
+            scripts.append([a])
+            if first:
+                for b in ops1:
+                    scripts.append([a, b])
+        if first:
+            scripts += [[("nth", 1), ("nth", 5), ("next", None)], [("next", None), ("nth", 5), ("nth", 5)], [("nth", 5), ("nth", 0), ("nth", 5)],
+                        [("next", None)] * 3 + [("nth", 5)], [("nth", 6), ("nth", (1 << 64) - 1)], [("next", None), ("nth", (1 << 64) - 1)]]
+        starts = (30,) if quick and not first else (0, 30)
+        nback = 130
+        bad = None
+        inc = None
+        nrun = 0
+        for st in starts:
+            if "usize" not in [f["ty"] for f in nkf if f["name"] == "node_id"] or any(
+                    f["name"] not in ("node_id", "node_seq_slice") and "PhantomData" not in f["ty"] for f in nkf):
+                inc = "role discovery: the fields of NodeKmer are %s" % [f["name"] for f in nkf]
+                break
+
+            def fresh(st=st):
+                vals = {"dna_string": Ref(Cell(dt.sym("s", nback), "back")), "start": usize(st), "length": usize(ln),
+                        "is_rc": Int(8, False, val=0, kind="bool")}
+                view = Adt(SLICE_T, 0, [vals[k] for k in order])
+                fv = []
+                for f in nkf:
+                    fv.append(usize(7) if f["name"] == "node_id" else (view if f["name"] == "node_seq_slice" else Adt("std::marker::PhantomData", 0, [])))
+                itv, _ = run_inst(F, h["key"], [Adt("graph::NodeKmer", 0, fv)])
+                return Cell(itv, "iter")
+
+            def item_ok(r, idx, st=st):
+                """r must be Some(k-mer idx) for idx < count, None otherwise; returns None if fine, else a description / ('inc', ..)"""
+                if not (isinstance(r, Adt) and r.variant in (0, 1)):
+                    return ("inc", "returns %r" % (r,))
+                if idx >= count:
+                    return None if r.variant == 0 else "yields a k-mer although the cursor is past the last k-mer (%d of %d)" % (idx, count)
+                if r.variant != 1:
+                    return "returns None although k-mer %d of %d exists" % (idx, count)
+                got = kt.storage_of(r.fields[0])
+                if not isinstance(got, Int) or any(b is TOP for b in got.getbits()):
+                    return ("inc", "item %r" % (r.fields[0],))
+                spec = [ZERO] * kt.W
+                for j in range(K):
+                    hi, lo = kt.lane_bits(j)
+                    blo, bhi = view_base_bits("s", st, ln, False, idx + j)
+                    spec[hi], spec[lo] = bhi, blo
+                if list(got.getbits()) != spec:
+                    return "yields a k-mer that is not k-mer %d of the node (bases %d..%d)" % (idx, idx, idx + K)
+                return None
+
+            try:
+                if "size_hint" in meths:
+                    r, _ = run_inst(F, meths["size_hint"], [Ref(fresh())])
+                    rep.evaluations += 1
+                    ok = isinstance(r, Tup) and isinstance(r.fields[0], Int) and r.fields[0].is_conc() and r.fields[0].val == count and \
+                        isinstance(r.fields[1], Adt) and r.fields[1].variant == 1 and isinstance(r.fields[1].fields[0], Int) and \
+                        r.fields[1].fields[0].is_conc() and r.fields[1].fields[0].val == count
+                    if not ok:
+                        bad = bad or "size_hint of a fresh iterator over a node of %d k-mers is %r" % (count, r)
+                for sc in scripts:
+                    if bad or inc:
+                        break
+                    cell = fresh()
+                    idx = 0
+                    trace = []
+                    for (op, n) in list(sc) + [("next", None)] * (count + 2):
+                        nrun += 1
+                        rep.evaluations += 1
+                        trace.append("next()" if op == "next" else "nth(%d)" % n)
+                        if op == "next":
+                            r, _ = run_inst(F, meths["next"], [Ref(cell)])
+                            want = idx
+                            idx = min(idx + 1, count) if idx < count else idx
+                        else:
+                            if "nth" in meths:
+                                r, _ = run_inst(F, meths["nth"], [Ref(cell), usize(n)])
+                            else:
+                                r = None
+                                for _i in range(min(n, count + 1) + 1):
+                                    r, _ = run_inst(F, meths["next"], [Ref(cell)])
+                                    if isinstance(r, Adt) and r.variant == 0:
+                                        break
+                            want = idx + n
+                            idx = min(idx + n + 1, count) if idx + n < count else count
+                            if want >= count:
+                                want = count
+                        pr = item_ok(r, want)
+                        if pr is not None:
+                            shown = trace if len(trace) <= 6 else trace[:len(sc) + 1] + ["…"] + trace[-1:]
+                            if isinstance(pr, tuple):
+                                inc = "after %s: %s" % (", ".join(shown), pr[1])
+                            else:
+                                bad = "a node of %d k-mers (view at %d of the packed store): after %s the call %s" % (count, st, ", ".join(shown), pr)
+                            break
+            except Diverge as e:
+                bad = bad or "a node of %d k-mers: %s diverges (panics): %s" % (count, ", ".join(trace[-4:]) if 'trace' in dir() else "into_iter", e)
+            except (Undecided, Unsupported) as e:
+                inc = inc or str(e)
+        key = "%s/sequences" % kty
+        if bad:
+            rep.violated(rule, key, "NodeKmerIter<%s>: %s" % (kty, bad), witness={"kind": "iter-script"})
+        elif inc:
+            rep.inconclusive(rule, key, "NodeKmerIter<%s>: %s" % (kty, inc))
+        else:
+            rep.holds(rule, key, "NodeKmerIter<%s>: %d scripted interleavings of next()/nth(n) (%d calls) return exactly the node's k-mers in order and "
+                      "None from the first step or skip past the end on; a fresh iterator reports %d" % (kty, len(scripts) * len(starts), nrun, count))
